@@ -147,6 +147,26 @@ pub fn gen_c01(rng: &mut Prng, thorough: bool, out: &mut Out) {
         for scheme in 0..3u8 {
             out.case(g1, &format!("sk_sign s00 c{} x{}", SCH[scheme as usize], hx(b"zero key")));
         }
+        // the key carried through every byte encoding (incl. the curve-tagged wrapper, both byte orders)
+        for sk in &keys {
+            let (be, mut le) = (sc_be(sk).to_vec(), sc_be(sk).to_vec());
+            le.reverse();
+            out.case(g1, &format!("sk_from_be x{}", hx(&be)));
+            out.case(g1, &format!("sk_from_le x{}", hx(&le)));
+            out.case(g1, &format!("bytes_rt wsk x{}", hx(&be)));
+            for tag in ["01", "02"] {
+                out.case(g1, &format!("skenum_from_be x{}{}", tag, hx(&be)));
+                out.case(g1, &format!("skenum_from_le x{}{}", tag, hx(&le)));
+                out.case(g1, &format!("bytes_rt wskenum x{}{}", tag, hx(&be)));
+            }
+            out.case(g1, &format!("bytes_rt wpk x{}", hx(&enc_pk(g1, sk))));
+            for scheme in 0..3u8 {
+                let sd = sig_dlog(g1, scheme, sk, b"enc");
+                let mut e = vec![scheme];
+                e.extend_from_slice(&enc_sig(g1, &sd));
+                out.case(g1, &format!("bytes_rt wsig x{}", hx(&e)));
+            }
+        }
     }
 }
 
@@ -224,6 +244,17 @@ pub fn gen_c02(rng: &mut Prng, thorough: bool, out: &mut Out) {
 pub fn gen_c09(rng: &mut Prng, thorough: bool, out: &mut Out) {
     for g1 in [true, false] {
         let keys = pick_keys(rng, if thorough { 12 } else { 6 });
+        // proofs as bytes: honest encodings, and encodings of points that are on the curve but outside the
+        // subgroup / not on the curve / carry wrong flags - a proof "changed" that way must not be accepted
+        for b in crate::search_codec::codec_bad_points(rng, g1, if thorough { 8 } else { 3 }) {
+            out.case(g1, &format!("bytes_rt wpop x{}", hx(&b.bytes)));
+        }
+        for sk in keys.iter().take(3) {
+            let pd = eta(&enc_pk(g1, sk), &dst_pop(g1)) * sk;
+            let e = enc_sig(g1, &pd);
+            out.case(g1, &format!("bytes_rt wpop x{}", hx(&e)));
+            out.case(g1, &format!("bytes_rt wpop x{}", hx(&e[..e.len() - 1])));
+        }
         out.case(g1, "pop_prove s00");
         for sk in &keys {
             out.case(g1, &format!("pop_prove s{}", hs(sk)));
@@ -259,8 +290,23 @@ pub fn gen_c05(rng: &mut Prng, thorough: bool, out: &mut Out) {
                         // proof of knowledge relabelled
                         let x = rng.scalar();
                         let y = rng.scalar();
-                        let u = eta(&amsg(g1, 0, sk, &m), &dst(g1, s)) * x;
-                        let _ = u;
+                        let u = eta(&m, &dst(g1, s)) * x;
+                        let v = -(sd * (x + y));
+                        out.case(g1, &format!("pok_verify c{} p{} p{} q{} x{} s{}", SCH[s2 as usize], hs(&u), hs(&v), hs(sk), hx(&m), hs(&y)));
+                        if m.len() == 32 {
+                            // signcryption and time-lock ciphertexts presented under every label,
+                            // and time-lock opened with the right point under every signature label
+                            let seed = rng.bytes(32);
+                            let d = dst(g1, s);
+                            let (cu, cv, cw) = sc_seal_ref(g1, sk, &m, &d, &seed);
+                            out.case(g1, &format!("scct_is_valid {}", ct_tok(&cu, &cv, &cw, s2)));
+                            out.case(g1, &format!("scct_decrypt {} s{}", ct_tok(&cu, &cv, &cw, s2), hs(sk)));
+                            let idp = amsg(g1, s, sk, b"id");
+                            let (tu, tv, tw) = tl_seal_ref(g1, sk, &m, &idp, &d, &seed);
+                            let tsig = sig_dlog(g1, s, sk, b"id");
+                            out.case(g1, &format!("tlct_decrypt q{} x{} x{} c{} c{} p{}", hs(&tu), hx(&tv), hx(&tw), SCH[s as usize], SCH[s2 as usize], hs(&tsig)));
+                            out.case(g1, &format!("tlct_decrypt q{} x{} x{} c{} c{} p{}", hs(&tu), hx(&tv), hx(&tw), SCH[s2 as usize], SCH[s as usize], hs(&tsig)));
+                        }
                     }
                 }
             }
@@ -1068,6 +1114,10 @@ pub fn gen_c15(rng: &mut Prng, thorough: bool, out: &mut Out) {
             if g1 {
                 out.case(g1, &format!("skenum_from_be x01{}", hx(&be32(&s))));
                 out.case(g1, &format!("skenum_from_be x02{}", hx(&be32(&s))));
+                out.case(g1, &format!("skenum_from_le x01{}", hx(&le32(&s))));
+                out.case(g1, &format!("skenum_from_le x02{}", hx(&le32(&s))));
+                out.case(g1, &format!("bytes_rt wskenum x01{}", hx(&be32(&s))));
+                out.case(g1, &format!("bytes_rt wskenum x02{}", hx(&be32(&s))));
             }
         }
     }
